@@ -5,14 +5,13 @@ Import ListNotations.
 Local Open Scope N_scope.
 
 Section BG. Variable cfg : config.
-Hypothesis R : rt_ok cfg.
+Hypothesis Hasc : tbl_ascii_ok cfg = true.
+Hypothesis Hksp : key_special_ascii cfg = true.
 Hypothesis Hsa : scan_ascii_ok cfg = true.
 Hypothesis Hfix : tbl_img_fixed cfg = true.
 Hypothesis Hsc : tbl_img_scalar cfg = true.
 Hypothesis Hnc : tbl_no_comma cfg = true.
 Hypothesis Hck : valid_key cfg s_checksum = true.
-Let Hasc := rt_asc cfg R.
-Let Hksp := rt_ksp cfg R.
 Let G := string_shape cfg.
 
 Lemma valid_type_mal t : valid_type cfg t = true -> valid_type cfg (make_ascii_lowercase t) = true.
@@ -63,6 +62,17 @@ Proof.
 Qed.
 
 (* C01 for the type-agnostic PURL *)
+End BG.
+Section BG1. Variable cfg : config.
+Hypothesis R : rt_ok cfg.
+Hypothesis Hsa : scan_ascii_ok cfg = true.
+Hypothesis Hfix : tbl_img_fixed cfg = true.
+Hypothesis Hsc : tbl_img_scalar cfg = true.
+Hypothesis Hnc : tbl_no_comma cfg = true.
+Hypothesis Hck : valid_key cfg s_checksum = true.
+Let Hasc := rt_asc cfg R.
+Let Hksp := rt_ksp cfg R.
+Let G := string_shape cfg.
 Theorem C01_G s t p : parse cfg G s = Ok (t, p) ->
   format_panics cfg G t = false /\ parse cfg G (format cfg G t p) = Ok (t, p).
 Proof.
@@ -74,7 +84,7 @@ Proof.
   apply bind_ok in H. destruct H as (ns & H7 & H). apply lift_ok in H7.
   apply bind_ok in H. destruct H as (name & Hn & H). apply lift_ok in Hn.
   destruct (checks_fields cfg Hasc Hksp r sub q ver ns name H3 H4 H6 H7 Hn) as [FV SI].
-  destruct (build_G_stable _ _ _ _ FV H) as (-> & Hvt & Hne & FV' & (S1 & S2 & S3 & S4) & Hb).
+  destruct (build_G_stable cfg Hasc Hksp Hsa Hfix Hsc Hnc Hck _ _ _ _ FV H) as (-> & Hvt & Hne & FV' & (S1 & S2 & S3 & S4) & Hb).
   split; [unfold format_panics; cbn [sh_type G string_shape]; rewrite Hvt; reflexivity|].
   rewrite (parse_format cfg G _ p R Hvt FV'). cbn [sh_from_str sh_type G string_shape bind].
   replace (norm_parts p) with p; [exact Hb|].
@@ -82,5 +92,5 @@ Proof.
   cbn [p_ns p_name p_ver p_sub] in S1, S4. rewrite S1, S4, SI1, SI2. rewrite <- S1, <- S4. destruct p; reflexivity.
 Qed.
 
-End BG.
+End BG1.
 Print Assumptions C01_G.
